@@ -51,7 +51,7 @@ REQUIRED_COUNTERS = ['cell:dict/fwd', 'cell:dict/rev', 'cell:DenseMatrix/fwd', '
                      'obs:comp-level-assembled', 'obs:subgroup-assembled', 'obs:root-assembled',
                      'obs:direct-solver', 'obs:krylov-solver', 'obs:newton-linear-solver',
                      'cell:COOMatrix/fwd', 'cell:COOMatrix/rev', 'obs:matrix-todense', 'obs:matrix-dtype-switch',
-                     'obs:matrix-update>=2', 'obs:matrix-mask', 'cell:drdi-CSRMatrix/fwd', 'cell:drdi-CSRMatrix/rev']
+                     'obs:matrix-update>=2', 'obs:matrix-mask', 'obs:matrix-no-duplicates', 'cell:drdi-CSRMatrix/fwd', 'cell:drdi-CSRMatrix/rev']
 ASSUMPTIONS = ['the harness components hand OpenMDAO exactly the triplets they record (own code)',
                'explicit components contribute -I for their own outputs (documented residual convention)',
                'tolerance 1e-12 * |D|_F * |v|_2 (round-off of <= ~100 products per row is ~1e-14 relative)',
@@ -649,12 +649,28 @@ def _gen_matrix_case(seed):
     has_cplx = any(h['complex'] for h in history)
     subs = []
     nsub = rng.randint(1, 5)
+    # 'nodup': no (row, col) position is written twice, so DenseMatrix keeps its plain ndarray (non-COO) path
+    nodup = rng.random() < 0.35
+    used = {}
     for k in range(nsub):
         ro = rng.randrange(nof)
         co = rng.randrange(len(csz))
         m, nsrc = rsz[ro], csz[co]
         sj = {'row': ro, 'col': co}
-        if kind == 'drdo' and rng.random() < 0.55:
+        if nodup:
+            u = used.setdefault((ro, co), set())
+            avail = [c for c in range(nsrc) if c not in u]
+            if kind == 'drdo' and avail and (u or rng.random() < 0.7):
+                pick = rng.sample(avail, rng.randint(1, len(avail)))
+                u.update(pick)
+                sj['src_indices'] = [c - nsrc if rng.random() < 0.5 else c for c in pick]
+                n = len(pick)
+            elif not u:
+                u.update(range(nsrc))
+                n = nsrc
+            else:
+                continue
+        elif kind == 'drdo' and rng.random() < 0.55:
             L = rng.randint(1, 4)
             sj['src_indices'] = [rng.randrange(-nsrc, nsrc) for _ in range(L)]
             n = L
@@ -673,14 +689,16 @@ def _gen_matrix_case(seed):
             cells = [(r, c) for r in range(m) for c in range(n)]
             rng.shuffle(cells)
             ent = cells[:nnz]
-            if st in ('rowcol', 'coo_dup') and rng.random() < 0.5:
+            if st in ('rowcol', 'coo_dup') and rng.random() < 0.5 and not nodup:
                 ent = ent + [rng.choice(ent) for _ in range(rng.randint(1, 2))]      # duplicates inside the subjac
                 rng.shuffle(ent)
             sj['rows'] = [e[0] for e in ent]
             sj['cols'] = [e[1] for e in ent]
         sj['declared_val'] = rng.choice(['none', 'array', 'scalar']) if st in ('dense', 'rowcol', 'diag') else 'array'
         subs.append(sj)
-    return {'kind': kind, 'rsz': rsz, 'csz': csz, 'subs': subs, 'history': history,
+    if not subs:
+        return _gen_matrix_case(seed + 7919)
+    return {'kind': kind, 'rsz': rsz, 'csz': csz, 'subs': subs, 'history': history, 'nodup': nodup,
             'mask': rng.choice([None, 'array', 'slice'])}
 
 
@@ -842,6 +860,10 @@ def _matrix_case(case, acc):
                 acc.count('obs:matrix-todense')
                 if T.shape != D.shape or not np.max(np.abs(T - D), initial=0.0) <= RTOL * nD:
                     bad.append((K('todense', cname, phase), '%s todense differs from D at step %d' % (cname, step)))
+                if T.dtype.kind != dtype.kind:
+                    # a real Jacobian that keeps a complex matrix adds complex products into real vectors
+                    bad.append((K('todense-dtype', cname, phase), '%s todense dtype %s after _pre_update(%s)' %
+                                (cname, T.dtype, dtype)))
                 v = vr.uniform(-1, 1, nc) + (1j * vr.uniform(-1, 1, nc) if cplx else 0.0)
                 w = vr.uniform(-1, 1, nr) + (1j * vr.uniform(-1, 1, nr) if cplx else 0.0)
                 mask = None
@@ -863,6 +885,9 @@ def _matrix_case(case, acc):
                     if got.shape != exp.shape or not np.max(np.abs(got - exp), initial=0.0) <= tol:
                         bad.append((K('prod-%s%s' % (mode, '-masked' if mk is not None else ''), cname, phase),
                                     '%s _prod %s differs from D at step %d' % (cname, mode, step)))
+                    if got.dtype.kind != dtype.kind:
+                        bad.append((K('prod-dtype', cname, phase), '%s _prod dtype %s after _pre_update(%s)' %
+                                    (cname, got.dtype, dtype)))
                     if not np.array_equal(x, x0):
                         bad.append((K('prod-modifies-input', cname, phase), '%s _prod changed its input' % cname))
         except Exception as e:
@@ -880,7 +905,9 @@ def _matrix_case(case, acc):
             acc.viol(key, what, case, new_case=first)
             first = False
         return
+    if not (feats & {'dupw', 'dupx'}):
+        acc.count('obs:matrix-no-duplicates')
     d2 = {'kind': desc['kind'], 'styles': sorted(set(sj['style'] for sj in desc['subs'])), 'feats': sorted(feats),
           'hist': [(h['complex'], h['change']) for h in desc['history']], 'mask': desc['mask'],
           'layout': [desc['rsz'], desc['csz']], 'nsub': len(desc['subs'])}
-    acc.ok(fingerprint(d2), nontrivial=bool(feats), sample=dict(d2, seed=seed, layer='matrix'))
+    acc.ok(fingerprint(d2), nontrivial=bool(feats) or len(desc['subs']) > 1, sample=dict(d2, seed=seed, layer='matrix'))
